@@ -6,7 +6,7 @@ Model: `Model/ReconEq.lean` (`compareRecon` = `compare_recon_values`, `hashCalls
 normal form the hash is meant to respect).
 Quantifiers: all values; all texts; all pairs of event streams (`List SItem`: events, possibly ending in an error item).
 -/
-import SwimVerif.Proofs.ReconEqCmp
+import SwimVerif.Proofs.ReconEqMat
 import SwimVerif.Proofs.ReconStruct
 
 namespace SwimVerif.ReconEq
@@ -64,6 +64,25 @@ theorem C15_cmp_agreeing_streams (a b : List SItem) (h : streamsAgree a b = true
 
 example : streamsAgree (stream (events "{0x10, \"a\"; b:-0}".toList)) (stream (events "{ 16,a\n\"b\" : 0 }".toList)) = true ∧
     compareRecon "{0x10, \"a\"; b:-0}".toList "{ 16,a\n\"b\" : 0 }".toList = true := by decide +kernel
+
+/-- Completeness on canonical streams, for ALL values: if two values are equal (`Value::eq`), their canonical event
+streams — any spelling of the numbers, every body explicit — compare `Some(true)`: the validators take every value in
+as one item of the expected size (`feedAll_value`), are never `Invalid`, and end in the initial state. -/
+theorem C15_cmp_complete_canonical (v w : Value) (h : veq v w = true) :
+    incrementalCompare (stream (evsV v, .fin)) (stream (evsV w, .fin)) = some true := canonical_equal v w h
+
+/-- The validator reads the canonical stream of any value back to its initial state (never `Invalid` on the way). -/
+theorem C15_validator_accepts_canonical (v : Value) : feedAll {} (evsV v) = {} := feedAll_top v
+
+/-- The canonical event stream of a value is read back by `ValueMaterializer` as that value (integers in the kinds
+the parser chooses, `Value.norm` of C09) — for ALL values, nested to any depth: `evsV` is a right inverse of the
+modelled `parse_recognize::<Value>` at the event level, so `hnorm` and `C15_cmp_complete_canonical` talk about the
+streams the real recognizer accepts for that value. -/
+theorem C15_canonical_stream_reads_back (v : Value) : materialize {} (evsV v) .fin = some v.norm :=
+  materialize_evsV v
+
+example : (parseValue "@a({1,2}) {k: -0.0}".toList).map evsV = some (events "@a({1,2}) {k: -0.0}".toList).1 := by
+  decide +kernel
 
 /-- `incremental_compare` is symmetric — for all pairs of event streams, valid or not, including the
 `StartBody`/`EndRecord` skipping and the validators' size bookkeeping. -/
@@ -133,19 +152,51 @@ theorem C15_eq_same_hash_partial :
     (parseValue "@a({1,2})".toList).map hnorm = some (hashCalls "@a({1,2})".toList) ∧
     hashCalls "@a(1,2)".toList = hashCalls "@a({1,2})".toList := by decide +kernel
 
-/-! ## open (tied by differential testing only) -/
+/-! ## "equal exactly when the values are equal" is false of `compare_recon_values` as it is (finding C15-N3) -/
 
-/-- The unrestricted law: on valid texts the comparator agrees with equality of the parsed values. -/
-def C15_cmp_sound_open : Prop :=
+/-- The statement of the property for the comparison, on valid texts. -/
+def C15_cmp_sound : Prop :=
   ∀ a b : List Char, ∀ va vb : Value, parseValue a = some va → parseValue b = some vb →
     compareRecon a b = veq va vb
 
-/-- The same restricted to printer output (what the backpressure layer relies on). -/
-def C15_cmp_sound_on_printed_open : Prop :=
-  ∀ (s1 s2 : Style) (v w : Value), v.wf = true → w.wf = true →
-    compareRecon (print s1 v) (print s2 w) = veq v w
+/-- C15-N3: where the two event streams disagree the comparator skips a `StartBody` / `EndRecord` on either side —
+anywhere, not only around attribute bodies — and then relies on the validators' sizes, which are additive
+(`Record(attrs, items).len = max(attrs,1) + max(items,1)`): moving the first item of a nested record out in front of
+it keeps every sum, so `{{1,2}}` and `{1,{2}}` (different values, both printer output) compare equal. -/
+theorem C15_cmp_sound_fails : ¬ C15_cmp_sound := by
+  intro h
+  have := h "{{1,2}}".toList "{1,{2}}".toList
+    (.record .nil (.val (.record .nil (.val (.int .i32 1) (.val (.int .i32 2) .nil))) .nil))
+    (.record .nil (.val (.int .i32 1) (.val (.record .nil (.val (.int .i32 2) .nil)) .nil)))
+    (by decide +kernel) (by decide +kernel)
+  revert this
+  decide +kernel
 
-/-- Equal values, printed by any two of the three printers, hash alike (no floats in `Value.wf`, so `-0.0` is excluded). -/
+/-- The witness is printer output on both sides (what the backpressure layer holds as keys). -/
+theorem C15_cmp_sound_on_printed_fails :
+    print .compact (.record .nil (.val (.record .nil (.val (.int .i32 1) (.val (.int .i32 2) .nil))) .nil)) = "{{1,2}}".toList ∧
+    print .compact (.record .nil (.val (.int .i32 1) (.val (.record .nil (.val (.int .i32 2) .nil)) .nil))) = "{1,{2}}".toList ∧
+    compareRecon "{{1,2}}".toList "{1,{2}}".toList = true ∧
+    hashCalls "{{1,2}}".toList ≠ hashCalls "{1,{2}}".toList := by decide +kernel
+
+/-- What holds (for ALL values): equal values in canonical layout compare equal — the "never split" half on canonical
+streams (`C15_cmp_complete_canonical`), and a text compares equal to itself / an invalid text only to itself
+(`C15_compare_refl`, `C15_invalid_is_string_eq`). -/
+theorem C15_cmp_sound_partial (v w : Value) (h : veq v w = true) :
+    incrementalCompare (stream (evsV v, .fin)) (stream (evsV w, .fin)) = some (veq v w) := by
+  rw [h]; exact canonical_equal v w h
+
+/-! ## open (tied by differential testing only) -/
+
+/-- No false splits: texts of equal values compare equal, whatever their layout (implicit / explicit attribute
+bodies, white space, separators, spellings). Neither the random engines nor the exhaustive small scope found a
+counterexample. -/
+def C15_cmp_complete_open : Prop :=
+  ∀ a b : List Char, ∀ va vb : Value, parseValue a = some va → parseValue b = some vb → veq va vb = true →
+    compareRecon a b = true
+
+/-- Equal values, printed by any two of the three printers, hash alike (no floats in `Value.wf`, so `-0.0` is excluded;
+the printers separate with `,` and write one spelling per string, so the scan of C15-N2 sees the same delimiters). -/
 def C15_hash_on_printed_open : Prop :=
   ∀ (s1 s2 : Style) (v w : Value), v.wf = true → w.wf = true → veq v w = true →
     hashCalls (print s1 v) = hashCalls (print s2 w)
